@@ -20,8 +20,11 @@ FilesCfg == {"one", "two_same_dir", "three_same_dir", "two_dirs", "nested_dir", 
 NotOneDir == {"two_dirs", "nested_dir", "nested_rev"}
 Containers == {"ok_result", "ok_noresult", "fail_at_0", "fail_at_2"}
 
+\* prior: what the SAME dataset object executed before this query - nothing, a query carrying docker metadata
+\* (another image) that ran, or one whose translation failed.  Expected() does not mention it: that is the property.
+Priors == {"none", "md_ok", "md_fail"}
 Scenario == [backend : Backends, files : FilesCfg, md : {"absent", "present"}, outdir : {"given", "default"},
-             translation : {"ok", "fails"}, container : Containers]
+             translation : {"ok", "fails"}, container : Containers, prior : Priors]
 
 \* the harness constructs every dataset with docker_image = "vp/dataset-image", docker_tag = "tag1"
 DefaultImage(b) == "vp/dataset-image:tag1"
